@@ -349,6 +349,10 @@ func GenFront(seed int64, idx int, o FrontOpts) *FGrammar {
 	}
 	for i := 0; i < g.nrules; i++ {
 		r := &FRule{Name: fmt.Sprintf("Rule%d", i), Expr: g.genExpr(0)}
+		if i == 0 && !o.Bootstrap && g.pct(15) {
+			// only labels are checked against the reserved words: a rule may be called like a Go keyword or predeclared name
+			r.Name = []string{"type", "string", "int", "nil", "break", "error", "len", "go"}[g.r.Intn(8)]
+		}
 		if i == 1 && g.pct(50) {
 			r.Name = "Règle_1"
 			// keep references valid: they use RuleN names, an undefined reference is still syntactically fine
